@@ -31,6 +31,9 @@ var advancing = map[string]string{
 }
 
 func isAdvancingCall(in ssa.Instruction) bool {
+	if _, isNext := in.(*ssa.Next); isNext {
+		return true // range over a string, map or channel: one element per iteration
+	}
 	c := callOf(in)
 	if c == nil {
 		return false
@@ -252,6 +255,10 @@ func loopProgress(h H, rule string, scope []*ssa.Function, min int) {
 			}
 			// (a) advancing call on every cycle
 			cyc := false
+			if isAdvancingCall(first) {
+				r.Hold(rule, construct, pos, "every cycle of this loop consumes input")
+				continue
+			}
 			reachWithin(fn, first, loop, func(in ssa.Instruction) bool { return isAdvancingCall(in) }, func(in ssa.Instruction) bool {
 				if in == first {
 					cyc = true
@@ -341,8 +348,10 @@ func hasRanking(fn *ssa.Function, hd *ssa.BasicBlock) (string, bool) {
 		if b, ok := i.Cond.(*ssa.BinOp); ok {
 			x, y := b.X, b.Y
 			switch b.Op {
-			case token.LSS, token.LEQ:
+			case token.LSS:
 				ms = append(ms, measure{describe(y) + " − " + describe(x), func(p *prover) linExpr { return p.lin(y).add(p.lin(x), -1) }})
+			case token.LEQ:
+				ms = append(ms, measure{describe(y) + " − " + describe(x) + " + 1", func(p *prover) linExpr { return p.lin(y).add(p.lin(x), -1).add(newLin(1), 1) }})
 			case token.GTR, token.GEQ, token.NEQ:
 				ms = append(ms, measure{describe(x) + " − " + describe(y), func(p *prover) linExpr { return p.lin(x).add(p.lin(y), -1) }})
 				if b.Op == token.NEQ {
